@@ -253,7 +253,8 @@ func (f *FakeCam) serve(c net.Conn, rec *CamConn, sc CamScript) {
 			} else if strings.HasPrefix(a, "Digest ") {
 				resp := between(a, `response="`, `"`)
 				uri := between(a, `uri="`, `"`)
-				if resp == DigestResponse(sc.User, "cam", sc.Pass, nonce, req.method, uri) {
+				// RFC 2617 3.2.2.5: the uri directive must be the Request-URI (userinfo aside); the hash is over it
+				if resp == DigestResponse(sc.User, "cam", sc.Pass, nonce, req.method, uri) && stripUserinfo(uri) == stripUserinfo(req.url) {
 					authState = "ok"
 				}
 			}
@@ -367,4 +368,20 @@ func (f *FakeCam) serve(c net.Conn, rec *CamConn, sc CamScript) {
 			reply(req, 405, "Method Not Allowed", nil, "")
 		}
 	}
+}
+
+func stripUserinfo(u string) string {
+	i := strings.Index(u, "://")
+	if i < 0 {
+		return u
+	}
+	rest := u[i+3:]
+	if j := strings.IndexByte(rest, '/'); j >= 0 {
+		if k := strings.LastIndexByte(rest[:j], '@'); k >= 0 {
+			return u[:i+3] + rest[k+1:]
+		}
+	} else if k := strings.LastIndexByte(rest, '@'); k >= 0 {
+		return u[:i+3] + rest[k+1:]
+	}
+	return u
 }
